@@ -27,7 +27,7 @@ AllTraits == {"Debug", "Clone", "Copy", "PartialEq", "Eq", "PartialOrd", "Ord", 
 \* other ways to write a literal or an identifier: 0x1F, 3u8, an out-of-range integer, r"zz", b"zz", " zz ", "a b",
 \* "0x1F", "+3", (3), r#type, "r#type", "type"
 LitKinds == {"hexint", "sufint", "bigint", "rawstr_ident", "bytestr", "str_ws_ident", "str_2idents", "str_hexint", "str_plusint",
-             "paren_int", "rawident", "str_rawident", "str_kw"}
+             "paren_int", "rawident", "str_rawident", "str_kw", "macro_call"}      \* macro_call: vec![1] -- an expression, nothing else
 IdentLike == {"ident", "str_ident", "rawstr_ident", "str_ws_ident", "rawident", "str_rawident"}
 ValKinds == {"bool_t", "bool_f", "ident", "str_ident", "str_empty", "int", "negint", "str_int", "str_negint",
              "path2", "str_path2", "float", "star", "preds", "str_preds", "call", "char"} \cup LitKinds
